@@ -1,2 +1,7 @@
 import LyModel.Props.C01
-#print axioms LyModel.Props.C01.placeholder
+#print axioms LyModel.Props.C01.xml_text_roundtrip
+#print axioms LyModel.Props.C01.xml_content_roundtrip
+#print axioms LyModel.Props.C01.xml_attr_roundtrip
+#print axioms LyModel.XmlText.esc_eq_spec
+#print axioms LyModel.Props.C01.json_string_roundtrip
+#print axioms LyModel.JsonText.esc_eq_spec
